@@ -228,6 +228,13 @@ def point_work(inp):
                 r = g.generate_profile(N, by_bloc=True)
             return tuple(_bag(r[0][b["name"]], keep[i], scores=(model == "cumulative")) for i, b in enumerate(blocs))
         f = gen
+    if inp.get("warm"):
+        # the generator object has been used before (one call with the real random source): the law of the next call is the same
+        try:
+            with quiet():
+                f()
+        except Exception:  # noqa
+            pass
     laws, paths, err = _explore(_guard(f), mp_)
     out = []
     if model in ("AC", "Cambridge"):
@@ -537,6 +544,8 @@ def grid(tier, seed):
     pts = [p for p in pts if p["model"] != "nameBT_mcmc" or all(len(_supported(p, b, True)) >= 2 for b in p["blocs"])]
     rd = random.Random(1661 + seed)
     for pt in pts:
+        if "mcmc" not in pt.get("model", "") and pt.get("model") not in ("spatial1d", "spatial", "clustered") and rd.random() < 0.3:
+            pt["warm"] = True
         if pt.get("model") != "Cambridge" and "dict_order" not in pt and rd.random() < 0.4:
             # the MCMC kernels are extracted from the chain's fixed seed state, which follows the order of the bloc dictionary
             # (a logged assumption of the harness): those points keep the bloc order and only permute the inner dictionaries
